@@ -439,4 +439,63 @@ def wfL : Nat → List LOp → Bool
 
 end NLinks
 
+/-! ## Part 4: the Stack constructor as a sequence of steps with a fault point  (C12)
+
+`Stack::Stack(bool activate_immediately)` (include/adept/Stack.h) performs three steps; `initialize` allocates three arrays
+(`StackStorageOrig::initialize`: multiplier_, index_, statement_) and any of these allocations may throw std::bad_alloc;
+`activate` throws stack_already_active when another stack is active in the thread.  A constructor that exits by an exception
+has constructed NO object: `~Stack` (which would clear the thread's pointer) does not run.  The ORDER of the steps is read
+from the source (`Generated/StorageCfg.lean: stackCtorOrder`, translate/storagecfg.py). -/
+namespace Ctor
+
+inductive CStep | initialize | newRecording | activate
+  deriving DecidableEq, Repr
+
+def CStep.ofName : String → Option CStep
+  | "initialize" => some .initialize | "new_recording" => some .newRecording | "activate" => some .activate | _ => none
+
+/-- the order of the pinned source: `initialize(ADEPT_INITIAL_STACK_LENGTH); new_recording(); if (activate_immediately) activate();` -/
+def codeOrder : List CStep := [.initialize, .newRecording, .activate]
+/-- activation first (the order of a seeded regression) -/
+def swappedOrder : List CStep := [.activate, .initialize, .newRecording]
+
+open Adept.Generated in
+/-- the order of the working tree, as translated (none: a step name the model does not know) -/
+def generatedOrder : Option (List CStep) := StorageCfg.stackCtorOrder.mapM CStep.ofName
+
+structure CSt where
+  /-- the constructing thread's active-stack pointer: 0 = none, else stack number + 1 -/
+  ptr : Nat
+  /-- the constructor has exited by an exception: the object does not exist -/
+  failed : Bool
+  deriving DecidableEq, Repr
+
+/-- one step of the constructor of the stack whose pointer value is `sid`; `fault`: an exception is injected into this step
+    (an allocation failing inside it); a step that throws has no effect of its own -/
+def cstep (sid : Nat) (act : Bool) (fault : Bool) (s : CSt) (k : CStep) : CSt :=
+  if s.failed then s
+  else if fault then { s with failed := true }
+  else match k with
+    | .initialize => s
+    | .newRecording => s
+    | .activate =>                     -- Stack::activate
+        if !act then s
+        else if s.ptr ≠ 0 ∧ s.ptr ≠ sid then { s with failed := true }
+        else { s with ptr := sid }
+
+/-- run the steps `ord` from step index `i`; the step with index `faultAt` faults (`faultAt ≥ length`: no fault) -/
+def crun (sid : Nat) (act : Bool) (faultAt : Nat) : List CStep → Nat → CSt → CSt
+  | [], _, s => s
+  | k :: ks, i, s => crun sid act faultAt ks (i + 1) (cstep sid act (i == faultAt) s k)
+
+/-- index of the step that performs the `a`-th array allocation of the constructor (all three are in `initialize`) -/
+def faultStepOfAlloc (ord : List CStep) (a : Nat) : Nat :=
+  if a < 3 then ord.findIdx (· == .initialize) else ord.length
+
+/-- the whole constructor in a thread whose pointer is `cur` -/
+def construct (ord : List CStep) (sid : Nat) (act : Bool) (faultAt : Nat) (cur : Nat) : CSt :=
+  crun sid act faultAt ord 0 ⟨cur, false⟩
+
+end Ctor
+
 end Adept.Threads
